@@ -32,9 +32,20 @@ type kindDef struct {
 	gen  func(rt *rapid.T, e *genEnv) stmt
 }
 
+// implicitCommitFamilies: statement families that MySQL documents as causing an implicit commit
+// (DDL incl. TRUNCATE, account management, ANALYZE TABLE). Inside START TRANSACTION READ ONLY
+// such a statement first ends the read-only transaction and then runs outside it, in MySQL
+// and, deliberately, in validateReadOnlyTransaction ("DDL statements have an implicit commits
+// which makes them valid to be executed in READ ONLY transactions"). The statement does not
+// decide these cells, so they are neutral in mode ro-tx (see notes/C42.md, false alarm 1).
+var implicitCommitFamilies = map[string]bool{"ddl": true, "acct": true, "stats": true}
+
 func (k kindDef) labelIn(mode string) string {
 	if mode == modeRODB && k.rodb != "" {
 		return k.rodb
+	}
+	if mode == modeROTx && k.label == lblWriter && implicitCommitFamilies[k.family] {
+		return lblNeutral
 	}
 	return k.label
 }
